@@ -848,6 +848,7 @@ func main() {
 	c.Rule = "generated pipelines of 1-3 steps; each step's function is a deterministic program of its request (adds resources whose content digests what it was given - observed names, desired names, context, extra resources, input, credentials -, drops resources, rewrites or drops context, requires extra resources by name / by labels / absent / changing between rounds, emits results and custom conditions, sets XR status), served by real gRPC servers: one per function revision (active + inactive, listed so that first != active), some v1beta1-only; cluster contents for selectors vary; between reconciles composed resources gain connection secrets, the active revision flips or its endpoint moves; finally a function is uninstalled; plus a concurrent stress of the PackagedFunctionRunner (8 callers x 150 calls while endpoints move, functions are uninstalled/re-installed and connections are collected; every response must come from an endpoint that was active during the call; the thorough tier is built with the Go race detector). A reference interpreter (contract from the property text + the same programs + the store snapshot taken at pipeline start) predicts every request of reconciles 2-4; compared with proto.Equal (extra-resource item order normalised). distinct = the case; non-trivial = (>=2 steps or requirement rounds) and a step changed desired or context."
 	c.Rule += " After the four reconciles: one reconcile whose last step adds a fatal result (conditions asserted in it must still be True), then uninstall + connection collection + re-install of fn-0 (it must be reached again)."
 	c.Rule += " " + "A runtime upgraded in place behind an unchanged endpoint (v1 <-> v1beta1 only) must keep being served; a Terminating composed resource stays in the observed state."
+	c.Rule += " " + "Programs may return no context at all, and may shrink their requirements to nothing."
 	c.Assumptions = []string{"programs are test inputs executed by both sides; the contract (threading, rounds, observed construction) is written from the property statement", "the first reconcile of an XR is not judged (in-memory XR differs from the stored one)"}
 	c.Floor = 100
 	n := c.N(600, 12000)
